@@ -243,6 +243,30 @@ def gen(ck):
             reads.append(list(txt.encode('latin1')))
         except UnicodeError:
             pass
+    # long plain-text files (several times any block size a reader may use) whose whitespace is not one character per byte:
+    # CRLF line ends, double spaces, tabs and blank lines, indented lines, 16 bytes per line
+    for total, style in ((17000, 'crlf'), (20000, 'double'), (33000, 'tabs'), (17500, 'indent'), (70000, 'mixed')):
+        payload = [(i * 7 + 3) % 128 for i in range(total)]
+        parts, pos = [], 0
+        while pos < total:
+            ln = 1 + (pos * 13) % 900
+            parts.append([0xf0] + payload[pos:pos + ln] + [0xf7])
+            pos += ln
+        toks = ['%02X' % b for msg in parts for b in msg]
+        out = []
+        for i, tk in enumerate(toks):
+            out.append(tk)
+            if style == 'crlf':
+                out.append('\r\n' if i % 16 == 15 else ' ')
+            elif style == 'double':
+                out.append('  ' if i % 5 == 0 else ' ')
+            elif style == 'tabs':
+                out.append('\t' if i % 3 else '\n\n')
+            elif style == 'indent':
+                out.append('\n    ' if i % 16 == 15 else ' ')
+            else:
+                out.append([' ', '\r\n', '\t ', '  ', '\n', ' \x0c'][(i * i + i // 7) % 6])
+        reads.append(list(''.join(out).encode('latin1')))
     reads += [[], [0xf0, 0xf7], [0xf0, 1, 2], [0x46], [0x46, 0x30, 0x20, 0x46, 0x37], [0xff], [0x20], [0x0a, 0x0a]]
     # a hand-made binary file: one sysex followed by far more than a thousand other messages, then another sysex
     reads.append([0xf0, 9, 0xf7] + [0xf8] * 1100 + [0x90, 1, 2] * 1100 + [0xf0, 0xf7])
